@@ -123,6 +123,8 @@ class NativeMaster:
         self.max_reads_outstanding = None
         self.rdata_rng = None
         self.rdata_stalled_with_valid = 0
+        # payload signals are don't-care while valid is low: a scrambling master drives random values on them then
+        self.scramble_rng = None
 
     def idle(self):
         return (self.issued_all or self.stop) and not self.wq and not self.rq and not self._cmd_valid
@@ -237,6 +239,10 @@ class NativeMaster:
                             self.wq.append(cur)
             if not cmd_valid and self._cmd_valid:
                 stmts.append(port.cmd.valid.eq(0))
+            if not cmd_valid and self.scramble_rng is not None:
+                sr = self.scramble_rng
+                nxt_addr = ops[i].addr if (i < len(ops) and sr.random() < 0.5) else sr.getrandbits(len(port.cmd.addr))
+                stmts += [port.cmd.addr.eq(nxt_addr), port.cmd.we.eq(sr.getrandbits(1)), port.cmd.last.eq(sr.getrandbits(1))]
             self._cmd_valid = cmd_valid
             if self.rdata_ready_prob is not None:
                 nrr = 1 if self.rdata_rng.random() < self.rdata_ready_prob else 0
@@ -252,6 +258,9 @@ class NativeMaster:
             elif wvalid:
                 stmts.append(port.wdata.valid.eq(0))
                 self._whead = None
+            if not new_wvalid and self.scramble_rng is not None:
+                stmts += [port.wdata.data.eq(self.scramble_rng.getrandbits(len(port.wdata.data))),
+                          port.wdata.we.eq(self.scramble_rng.getrandbits(len(port.wdata.we)))]
             wvalid = new_wvalid
             if stmts:
                 yield stmts
